@@ -244,20 +244,41 @@ def shutdownWrite (d : Drv) : Option SErr → Drv × Option CErr
   | none => (d, none)
   | some e => let (d1, c) := raise d (ctlStreamErr e); (d1, some c)
 
-/-- Does `ConnectionInner::shutdown` start with the check `poll_connection_error` makes?  `false` is the
-    code that exists (D-05s); `true` is the candidate repair
-    (`patches_not_applied/D-05s-shutdown-reports-connection-error.candidate.diff`) — flip it together with
-    the patch. -/
-def shutdownChecksError : Bool := false
+/-- `ConnectionInner::check_connection_error` — what `shutdown` starts with since the repair of D-05s:
+    the check `poll_connection_error` makes, without registering a waker — on the shared error
+    cell of `H3.ErrCell`: the handled error if there is one; otherwise the cell's error, acted on
+    (`close_if_needed`, `convert_to_connection_error`) as a driver poll would; otherwise nothing. -/
+def checkError (s : H3.ErrCell.State) : H3.ErrCell.State × Option CErr :=
+  match s.handled with
+  | some h => (s, some h)
+  | none =>
+    match s.cell with
+    | some e => ({ s with closes := s.closes ++ (closeOf e).toList, handled := some (convert e) }, some (convert e))
+    | none => (s, none)
 
-/-- `ConnectionInner::shutdown` as a whole: `keeps` = a GOAWAY whose identifier is not larger than
-    the new one was sent before (`sent_closing`, set *before* the write is attempted): `Ok(())` at
-    once; otherwise the write, `w` = what it answers.  The connection's error state is not looked
-    at on the way (D-05s: on a failed connection the call answers `Ok(())`). -/
+/-- what `ConnectionInner::shutdown` decides before it touches the transport -/
+inductive ShutdownPlan where
+  /-- the connection has failed: `Err(error)`; `sent_closing` is left alone, nothing is written -/
+  | report (h : CErr)
+  /-- a GOAWAY whose identifier is not larger was sent before: `Ok(())`, nothing is written -/
+  | nothing
+  /-- `sent_closing` is set and the GOAWAY frame is written on the control stream -/
+  | write
+deriving Repr, DecidableEq
+
+/-- `keeps` = a GOAWAY whose identifier is not larger than the new one was sent before.  (Here the
+    driver shares the error state with nobody, so `check_connection_error` is `d.handled`.) -/
+def shutdownPlan (d : Drv) (keeps : Bool) : ShutdownPlan :=
+  match d.handled with
+  | some h => .report h
+  | none => if keeps then .nothing else .write
+
+/-- `ConnectionInner::shutdown` as a whole; `w` = what the GOAWAY write answers if it is made -/
 def shutdownEntry (d : Drv) (keeps : Bool) (w : Option SErr) : Drv × Option CErr :=
-  match shutdownChecksError, d.handled with
-  | true, some h => (d, some h)
-  | _, _ => if keeps then (d, none) else shutdownWrite d w
+  match shutdownPlan d keeps with
+  | .report h => (d, some h)
+  | .nothing => (d, none)
+  | .write => shutdownWrite d w
 
 /-- a transport given by a script: the answers to successive calls, whatever the call (used up = `Pending`) -/
 def scriptTr : Transport (List Ans) :=
